@@ -15,7 +15,7 @@ CORPUS="$ROOT/harness/fuzz/corpus/$TARGET-$PROP"; ART="$ROOT/replays/fuzz-$TARGE
 rm -rf "$CORPUS"; mkdir -p "$CORPUS" "$ART"
 # a few seed inputs: zeros, ones, counting bytes
 head -c 96 /dev/zero > "$CORPUS/zeros"; head -c 96 /dev/zero | tr '\0' '\377' > "$CORPUS/ones"; python3 -c "import sys;sys.stdout.buffer.write(bytes(range(200)))" > "$CORPUS/count"
-RUNS="${VERIF_FUZZ_RUNS:-3000000}"
+RUNS="${VERIF_FUZZ_RUNS:-400000}"
 [ "$SEED" = "0" ] && LSEED=1 || LSEED="$SEED"
 RUSTFLAGS="--cfg cdshealpix_verif" cargo +nightly fuzz run "$TARGET" "$CORPUS" -- -runs="$RUNS" -seed="$LSEED" -len_control=0 -max_len=400 -artifact_prefix="$ART/" -print_final_stats=1 >"$ROOT/.logs/fuzz-run-$TARGET-$PROP.log" 2>&1
 rc=$?
